@@ -11,6 +11,9 @@ def cfgOf (profile : String) : Gen.Cfg :=
   | "rgba" => { depth := 32 }
   | "gray" => { depth := 16 }
   | "indexed" => { depth := 8 }
+  | "forest" => { maxW := 4, maxH := 3, maxFrames := 1, maxLayers := 8, tilesets := false,
+                  tags := false, slices := false, extFiles := false, userData := false,
+                  oldPalette := false, blendModes := false }
   | "tiles" => { maxLayers := 3, tags := false, slices := false, extFiles := false }
   | _ => {}
 
